@@ -235,6 +235,7 @@ pub fn tokenize_expression(input: &str) -> Result<Vec<Token>, CompilerError> {
 pub fn parse_expression(input: &str) -> Result<Expression, CompilerError> {
     let tokens = tokenize_expression(input)?;
     let mut parser = ExpressionParser::new(tokens);
+    parser.check_length()?;
     let expression = parser.parse_expression()?;
 
     if !parser.is_at_end() {
@@ -338,6 +339,17 @@ struct ExpressionParser {
 impl ExpressionParser {
     fn new(tokens: Vec<Token>) -> Self {
         Self { tokens, current: 0 }
+    }
+
+    /// An operator chain becomes a tree as deep as it is long.
+    fn check_length(&self) -> Result<(), CompilerError> {
+        if self.tokens.len() > crate::nesting::MAX_EXPRESSION_TOKENS {
+            return Err(CompilerError::invalid_source(format!(
+                "expression too long (more than {} tokens)",
+                crate::nesting::MAX_EXPRESSION_TOKENS
+            )));
+        }
+        Ok(())
     }
 
     fn parse_expression(&mut self) -> Result<Expression, CompilerError> {
@@ -514,6 +526,9 @@ impl ExpressionParser {
     }
 
     fn parse_unary(&mut self) -> Result<Expression, CompilerError> {
+        // Every parenthesis and every prefix operator comes through here
+        let _nesting = crate::nesting::enter()?;
+
         if self.match_token(&Token::Bang) {
             let expr = self.parse_unary()?;
             return Ok(Expression::Not(Box::new(expr)));
@@ -530,7 +545,11 @@ impl ExpressionParser {
             Token::Bool(value) => Ok(Expression::Bool(value)),
             Token::Int(value) => Ok(Expression::Int(value)),
             Token::Float(value) => Ok(Expression::Float(value)),
-            Token::Str(value) => Ok(Expression::Str(value)),
+            Token::Str(value) => {
+                // (what is between braces in a string is parsed when it is emitted)
+                crate::nesting::check_brace_depth(&value)?;
+                Ok(Expression::Str(value))
+            }
             Token::Ident(name) => {
                 // Check if it's a function call: Ident followed by '('
                 if self.match_token(&Token::LeftParen) {
